@@ -16,12 +16,15 @@ package postprocessor
 // its net contribution is 0 once it has returned, on every exit path.
 //@ func (*postprocessor).worker
 //@   property C17
-//@   attr hooked inputCh,outputCh
+//@   attr hooked @C01 inputCh,outputCh
 //@   local nIn int = 0
 //@   local nOut int = 0
 //@   local inHand *models.Item = nil
 //@   after selrecv(inputCh)#1: nIn = nIn + ite(opOk, 1, 0); inHand = seed
+//@   local nLinks int = 0
+//@   after selsend(outputCh)#2: nLinks = nLinks + 1
 //@   after selsend(outputCh)#1: nOut = nOut + 1
+//@   loop range invariant [in-hand] @C01 nIn == nOut + 1 // while the outlinks of the seed in hand are fed, the seed itself has not been forwarded yet
 //@   loop for invariant [forwarded-once] @C01 nIn == nOut // C01: each stage forwards the seed exactly once (a received seed is sent on exactly once before the next one is taken; on stop the worker returns instead)
 //@   mode math
 //@   attr noreach stats.PostprocessorRoutinesIncr,stats.PostprocessorRoutinesDecr
